@@ -34,9 +34,9 @@ REF_ELL = {"SphericalEarth": (6.3781e6, 0.0), "WGS84": (6378137.0, 0.08181919084
 TOL_M = 0.01          # 1 cm
 TOL_DEG = 1e-7
 SIG_HEIGHT = "height-1cm-high-latitude"
-# float32 arguments through the iteration of cart2geodetic: off until the reported hang is fixed or listed
-# (signature cart2geodetic-float32-no-termination); a run with VERIF_C07_F32_ITER=1 guards each call with SIGALRM
-F32_ITERATION = bool(os.environ.get("VERIF_C07_F32_ITER"))
+# float32 arguments through the iteration of cart2geodetic (hang fixed by a484b14, signature
+# cart2geodetic-float32-no-termination): on; every such call runs under a 5 s SIGALRM so that a hang is a violation
+F32_ITERATION = os.environ.get("VERIF_C07_F32_ITER", "1") != "0"
 
 
 
@@ -284,6 +284,13 @@ def gen_cases(rng, n):
              "lat": rng.randint(-88, 88), "lon": rng.randint(-179, 180), "r": rng.choice([7000000, 6378137, rng.randint(1000000, 80000000)]),
              "za": rng.randint(1, 179), "aa": rng.choice([rng.randint(-179, 179), 90, -90, 45]),
              "lat2": rng.randint(-90, 90), "lon2": rng.randint(-180, 180)}
+        mode = rng.random()
+        if mode < 0.15:                                  # exactly / nearly antipodal second point
+            d["lat2"], d["lon2"] = -d["lat"] + rng.choice([0, 0, 1]), d["lon"] - 180 if d["lon"] > 0 else d["lon"] + 180
+        elif mode < 0.3:                                 # coincident / neighbouring second point
+            d["lat2"], d["lon2"] = d["lat"] + rng.choice([0, 0, 1]), d["lon"] + rng.choice([0, 1, 360])
+        elif mode < 0.4:                                 # date line, pole as second point
+            d["lon"], d["lat2"] = rng.choice([180, -179, 179]), rng.choice([90, -90])
         cases.append(d)
         cases.append({"kind": "geodetic", "model": d["model"], "h": float(d["h"]), "lat": float(d["lat"]), "lon": float(d["lon"])})
         cases.append({"kind": "poslos", "r": float(d["r"]), "lat": float(d["lat"]), "lon": float(d["lon"]), "za": float(d["za"]), "aa": float(d["aa"])})
@@ -796,7 +803,7 @@ class Judge:
                 if how != "firstint" and any(isinstance(v, float) and v != int(v) for v in vals):
                     continue
                 if how == "f32arr" and name in ("cart2geodetic", "geocentric2geodetic") and ellf[1] != 0 and not F32_ITERATION:
-                    continue        # reported: the 1e-12 rad loop may never end in float32 (cart2geodetic-float32-no-termination)
+                    continue        # switched off by VERIF_C07_F32_ITER=0
                 args = conv(vals, how, lengths)
                 try:
                     if how == "f32arr" and name in ("cart2geodetic", "geocentric2geodetic"):
@@ -824,34 +831,134 @@ class Judge:
                 if len(got) != n * len(ref) or n == 0:
                     self.v(c, f"{name} [{how}] at {tuple(vals)}: {len(got)} result values, float64 call gives {len(ref)}")
                     continue
-                # float32 arguments: 6e-8 relative on every input, amplified by 1/cos(lat) in the inverse conversions
-                amp = 1.0 / max(math.cos(math.radians(min(abs(float(lat)), 89.0))), 0.03)
-                tol = (4e-6 * amp if how == "f32arr" else 1e-12) * scale
                 angles = {"cart2geodetic": {1, 2}, "geodetic2geocentric": {1, 2}, "geocentric2geodetic": {1, 2},
                           "cart2geocentric": {1, 2}, "great_circle_distance": {0}}.get(name, set())
                 units = {3, 4, 5} if name.startswith("geocentricposlos2cart") else set()      # components of the unit LOS vector
+                if how == "f32arr":
+                    tols = self.f32_tol(name, f, fvals, ref, angles, units)
                 for i, w in enumerate(ref):
                     vs = got[i * n:(i + 1) * n]
                     ang = i in angles
-                    t_ = (7e-5 * amp if how == "f32arr" else 1e-10) if ang else (2e-5 if how == "f32arr" else 1e-12) if i in units else tol
+                    if how == "f32arr":
+                        t_ = tols[i]
+                    elif name.startswith("great_circle_distance"):
+                        # same float64 operations; never tighter than the conditioning of the haversine itself
+                        t_ = 1e-10 + 2 * gcd_tol(ref[0] if name == "great_circle_distance" else 0.0) \
+                            + (1e-12 * scale if name != "great_circle_distance" else 0.0)
+                    else:
+                        amp = 1.0 / max(math.cos(math.radians(min(abs(float(lat)), 89.9))), 1e-3)
+                        t_ = 1e-10 * amp if ang else 1e-12 if i in units else 1e-12 * scale * amp
                     if not all(math.isfinite(v) and (abs(v - w) <= t_ or (ang and abs(circ(v, w)) <= t_)) for v in vs):
-                        self.v(c, f"{name} with {how} arguments at {tuple(vals)}: result[{i}] = {vs}, with float64 arguments {w!r}")
+                        self.v(c, f"{name} with {how} arguments at {tuple(vals)}: result[{i}] = {vs}, with float64 arguments {w!r} (tolerance {t_:.3g})")
                         break
                 if how in ("pyint", "firstint") and name.startswith("geocentricposlos2cart"):
                     q = flat(g.cartposlos2geocentric(*out))
                     if not (all(math.isfinite(v) for v in q) and abs(q[3] - za) <= TOL_DEG):
                         self.v(c, f"cartposlos2geocentric(geocentricposlos2cart{tuple(args)}) = {q} (zenith angle {za})")
+        # more float32 points through the iteration (termination was a defect: a484b14): all under one alarm
+        if ellf[1] != 0 and F32_ITERATION:
+            import random
+            import signal
+            prng = random.Random(hash((h, lat, lon, r)) & 0xFFFFFFF)
+            pts = []
+            for _ in range(40):
+                hh, la, lo = prng.randint(-10000, 1000000), prng.randint(-88, 88), prng.randint(-179, 180)
+                pts.append(tuple(float(int(round(sc(t)))) for t in g.geodetic2cart(float(hh), float(la), float(lo), ellf)))
+
+            def _to(*_a):
+                raise TimeoutError("no result after 10 s")
+            old_h = signal.signal(signal.SIGALRM, _to)
+            cur = None
+            try:
+                signal.alarm(10)
+                for cur in pts:
+                    out = flat(g.cart2geodetic(*[np.array([v], dtype=np.float32) for v in cur], raw))
+                    signal.alarm(10)
+                    ref = flat(g.cart2geodetic(*cur, raw))
+                    tl = self.f32_tol("cart2geodetic", lambda a_, b_, c_: g.cart2geodetic(a_, b_, c_, raw), list(cur), ref, {1, 2}, set())
+                    if not all(math.isfinite(v) and (abs(v - w) <= t_ or (k > 0 and abs(circ(v, w)) <= t_)) for k, (v, w, t_) in enumerate(zip(out, ref, tl))):
+                        self.v(c, f"cart2geodetic with float32 arrays at {cur} ({c['model']}) = {out}, with float64 arguments {ref}")
+                        break
+            except TimeoutError as ex:
+                self.v(c, f"cart2geodetic(np.array([{cur[0]:.0f}], dtype=np.float32), np.array([{cur[1]:.0f}], dtype=np.float32), "
+                          f"np.array([{cur[2]:.0f}], dtype=np.float32), {c['model']}) does not terminate: {ex}", "cart2geodetic-float32-no-termination")
+            finally:
+                signal.alarm(0)
+                signal.signal(signal.SIGALRM, old_h)
         # cartposlos2geocentric with an integer position (int64: x**2 fits) and integer direction components
         d = (1, 2, -2)
-        ref = flat(g.cartposlos2geocentric(float(x), float(y), float(z), 1.0, 2.0, -2.0))
+        fv = [float(v) for v in (x, y, z) + d]
+        ref = flat(g.cartposlos2geocentric(*fv))
+        E32 = 2.0 ** -23
         for how in ("pyint", "int64arr", "f32arr"):
             got = flat(g.cartposlos2geocentric(*conv((x, y, z) + d, how, {0, 1, 2})))
             n = len(got) // len(ref)
+            e_ = E32 if how == "f32arr" else 2.0 ** -50
+            coslat = max(math.cos(math.radians(ref[1])), math.sqrt(e_))
+            sinza = max(math.sin(math.radians(ref[3])), math.sqrt(e_))
+            dc = 256 * e_ / sinza ** 2
+            saa = abs(math.sin(math.radians(ref[4])))
+            tl = [64 * e_ * abs(ref[0]), math.degrees(64 * e_ / coslat), math.degrees(64 * e_ / coslat), math.degrees(64 * e_ / sinza),
+                  math.degrees(dc / saa if saa > math.sqrt(dc) else 2 * math.sqrt(dc))]
             for i, w in enumerate(ref):
-                t_ = (2e-6 * abs(w) + (5e-2 if i >= 3 else 2e-3)) if how == "f32arr" else 1e-12 * max(abs(w), 1.0) + 1e-9
-                if not all(math.isfinite(v) and (abs(v - w) <= t_ or abs(circ(v, w)) <= t_) for v in got[i * n:(i + 1) * n]):
-                    self.v(c, f"cartposlos2geocentric with {how} arguments at {(x, y, z) + d}: result[{i}] = {got[i * n:(i + 1) * n]}, float64: {w!r}")
+                if not all(math.isfinite(v) and (abs(v - w) <= tl[i] + 1e-9 or abs(circ(v, w)) <= tl[i] + 1e-9) for v in got[i * n:(i + 1) * n]):
+                    self.v(c, f"cartposlos2geocentric with {how} arguments at {(x, y, z) + d}: result[{i}] = {got[i * n:(i + 1) * n]}, float64: {w!r} (tolerance {tl[i]:.3g})")
                     break
+
+    def f32_tol(self, name, f, fvals, ref, angles, units):
+        """sound tolerance for the result of a call with float32 arguments against the float64 call, per result component:
+        8 x the largest change of the float64 result under a one-ulp(float32) change of one argument (input rounding and
+        its amplification: poles, date line, near-coincident points, heights as differences), plus the forward error of
+        the float32 evaluation with its known conditioning (haversine / arcsin towards antipodal points and poles,
+        cancellation in lengths), all with generous constants.  The property itself says nothing about float32."""
+        np = self.np
+        E32 = 2.0 ** -23
+
+        def flat(v):
+            return [float(t) for a_ in (v if isinstance(v, (tuple, list)) else (v,)) for t in np.ravel(np.asarray(a_, dtype=float))]
+        sens = [0.0] * len(ref)
+        for i, v in enumerate(fvals):
+            ulp = float(np.spacing(np.float32(v))) if v != 0 else 0.0
+            for sgn in (1.0, -1.0):
+                if ulp == 0.0:
+                    continue
+                pv = list(fvals)
+                pv[i] = v + sgn * ulp
+                try:
+                    with np.errstate(all="ignore"):
+                        pr = flat(f(*pv))
+                except Exception:
+                    continue
+                for k, (a_, b_) in enumerate(zip(pr, ref)):
+                    dlt = abs(circ(a_, b_)) if k in angles else abs(a_ - b_)
+                    if math.isfinite(dlt):
+                        sens[k] = max(sens[k], dlt)
+        lengths_in = max([abs(v) for v in fvals if abs(v) > 360.0] + [0.0])
+        lengths_out = max([abs(w) for k, w in enumerate(ref) if k not in angles and k not in units] + [0.0])
+        L = max(lengths_in, lengths_out, 1.0)
+        out = []
+        for k, w in enumerate(ref):
+            t = 8 * sens[k] + 8 * E32 * abs(w)
+            if name.startswith("great_circle_distance"):
+                cdeg = ref[0] if name == "great_circle_distance" else math.degrees(ref[0] / max(fvals[4], 1e-300))
+                cond = 32 * E32 / max(math.cos(math.radians(min(cdeg, 180.0)) / 2), math.sqrt(E32))     # radians
+                t += math.degrees(cond) + 64 * E32 if name == "great_circle_distance" else (cond + 64 * E32) * fvals[4]
+            elif k in angles:
+                # latitude from arcsin / arctan: 1/cos(lat); longitude from arctan2: relative
+                latlike = k == 1
+                cl = max(math.cos(math.radians(min(abs(ref[1]), 90.0))), math.sqrt(E32)) if latlike else 1.0
+                t += math.degrees(64 * E32 / cl)
+            elif k in units:
+                t += 256 * E32
+            elif name == "tunnel_distance":
+                t += 64 * E32 * 6.3781e6
+            else:
+                amp = 1.0
+                if name in ("cart2geodetic", "geocentric2geodetic"):
+                    amp = 1.0 / max(math.cos(math.radians(min(abs(ref[1]), 90.0))), 1e-2)     # dh/dlat = (N+h) tan(lat)
+                t += 64 * E32 * L * amp
+            out.append(t)
+        return out
 
     def reject(self, c, ans):
         g = self.g
